@@ -193,7 +193,7 @@ def c11_treelist(kw):
     return True
 
 
-DS_OPS = ["add_unify", "add_unify_target", "migrate_then_unify", "attach_new", "read_attached", "matrix_migrate", "matrix_reconstruct", "matrix_new_sequence"]
+DS_OPS = ["add_unify", "add_unify_target", "migrate_then_unify", "attach_new", "read_attached", "read_nexml_two_otus", "matrix_migrate", "matrix_reconstruct", "matrix_new_sequence"]
 
 
 @with_signature(SPEC)
@@ -205,6 +205,10 @@ def c11_dataset(kw):
     tl.append(source_tree(l0))
     m = source_matrix(l1)
     if op in ("add_unify", "add_unify_target", "migrate_then_unify"):
+        if op != "migrate_then_unify" and choose(kw["memo"], 2):
+            # a data set whose components already share one namespace (as after reading a single file)
+            m.migrate_taxon_namespace(tl.taxon_namespace)
+            l1 = [t.label for t in m]       # (the shared source namespace is case-insensitive: labels as they are now)
         ds.add(tl)
         ds.add(m)
         if op == "migrate_then_unify":
@@ -264,6 +268,35 @@ def c11_dataset(kw):
         ds.read(file=SymStream("(%s,(%s,%s));" % tuple(l1)), schema="newick", case_sensitive_taxon_labels=ns.is_case_sensitive)
         trees = [t for x in ds.tree_lists for t in x]
         for x in ds.tree_lists:
+            if x.taxon_namespace is not ns:
+                return "read-component-outside-the-attached-namespace"
+        for t in trees:
+            r = check_tree_in(t, ns, "read-tree")
+            if r:
+                return r
+        return check_unified(trees, ns, [l0, l1], "read") or True
+    if op == "read_nexml_two_otus":
+        # one NeXML document with two <otus> blocks (labels equal / case variants / overlapping / disjoint), read
+        # into a single namespace: by TreeList.get, or by a data set with that namespace attached
+        src = dendropy.DataSet()
+        tl2 = dendropy.TreeList(taxon_namespace=dendropy.TaxonNamespace())
+        tl2.append(source_tree(l1))
+        src.add(tl)
+        src.add(tl2)
+        text = src.as_string(schema="nexml")
+        ns = make_dst(kw)
+        if choose(kw["memo"], 2):
+            got = dendropy.DataSet()
+            got.attach_taxon_namespace(ns)
+            got.read(data=text, schema="nexml", case_sensitive_taxon_labels=ns.is_case_sensitive)
+            lists = list(got.tree_lists)
+            trees = [t for x in lists for t in x]
+        else:
+            lists = [dendropy.TreeList.get(data=text, schema="nexml", taxon_namespace=ns, case_sensitive_taxon_labels=ns.is_case_sensitive)]
+            trees = list(lists[0])
+        if len(trees) != 2:
+            return "nexml-read:number-of-trees"
+        for x in lists:
             if x.taxon_namespace is not ns:
                 return "read-component-outside-the-attached-namespace"
         for t in trees:
